@@ -298,7 +298,7 @@ func RuleListen(r *Report, p *Program) {
 		if consumer != nil {
 			cf := consumer.Fn
 			w := NewWalker(p)
-			w.LoopFuel = 2
+			w.LoopFuel = bound(2, 3)
 			upk := p.SSAPkg("uhppote")
 			helpers := inlineHelpers([]*ssa.Package{upk}, func(f *ssa.Function) bool { return a.Senders[f] != "" })
 			w.Inline = func(f *ssa.Function, d int) bool {
